@@ -136,7 +136,7 @@ SpColon(s) ==
 
 Parse(E, data) ==
     LET raw == Trim(data) IN
-    IF ByteLen(E, raw) < 2 THEN Nil
+    IF Len(raw) = 0 \/ (Len(raw) = 1 /\ Len(Exp1(E, raw[1])) < 2) THEN Nil     \* len(raw) < 2 bytes
     ELSE LET hasp == raw[1] = "COLON"
              k == First(raw, {"SP"})
          IN IF hasp /\ k < 3 THEN Nil            \* prefix must not be empty
@@ -170,7 +170,7 @@ Encode(m) ==
         head == IF m.hasp THEN <<"COLON">> \o m.p \o <<"SP">> ELSE <<>>
         mid == IF n > 1 THEN <<"SP">> \o JoinSP(SubSeq(m.a, 1, n - 1)) ELSE <<>>
         tr == IF n > 0 THEN m.a[n] ELSE <<>>
-        colon == Len(tr) < 1 \/ "SP" \in Rng(tr) \/ tr[1] = "COLON"
+        colon == Len(tr) < 1 \/ tr[1] = "COLON" \/ \E i \in DOMAIN tr : tr[i] = "SP"
         last == IF n > 0 THEN <<"SP">> \o (IF colon THEN <<"COLON">> ELSE <<>>) \o tr ELSE <<>>
         all == head \o m.c \o mid \o last
     IN IF Len(all) > MaxLen THEN SubSeq(all, 1, MaxLen) ELSE all
@@ -198,6 +198,9 @@ ReplaceInvalid(l) ==
     ELSE FoldLeft(LAMBDA acc, i : IF ByteOk(l, i) THEN Append(acc, l[i]) ELSE acc \o <<"U3", "V", "V">>,
                   <<>>, [i \in DOMAIN l |-> i])
 
+\* cmdUser with the repaired length limit: cut to MaxUser bytes, a rune cut in half is dropped
+CutUser(u) == IF MaxUser > 0 /\ Len(u) > MaxUser THEN StripInvalid(SubSeq(u, 1, MaxUser)) ELSE u
+
 Send(m) == IF FixUtf8 THEN StripInvalid(Encode(m)) ELSE Encode(m)      \* Replyctx.Messages[*].Data
 Deliver(l) == ReplaceInvalid(l)                                          \* Data in GET .../messages
 
@@ -218,7 +221,7 @@ WellFormed(l) ==
        ELSE LET e == First(l, {"SP"}) IN AllO(IF e = 0 THEN l ELSE SubSeq(l, 1, e - 1))
 
 OneLineOk(l) == /\ Len(l) <= MaxLen
-                /\ Rng(l) \cap Ctl = {}
+                /\ \A i \in DOMAIN l : l[i] \notin Ctl
                 /\ WellFormed(l)
 
 ---------------------------------------------------------------------------
@@ -263,8 +266,6 @@ TrimSP(s) ==
 
 Res(st, out) == [st |-> st, out |-> out]
 
-\* cmdUser with the repaired length limit
-CutUser(u) == IF MaxUser > 0 /\ Len(u) > MaxUser THEN SubSeq(u, 1, MaxUser) ELSE u
 
 Privmsg(E, st, w, msg) ==
     LET N == Nick(E, st)  n == Len(msg.params)  p == msg.params IN
@@ -356,7 +357,9 @@ NickCmd(E, st, msg) ==
     ELSE IF nick = <<"NEWNICK">>                                   \* a free, valid nickname (set-up steps only)
          THEN Res(IF st.user # <<>> THEN [st EXCEPT !.hasnick = TRUE, !.reg = TRUE] ELSE [st EXCEPT !.hasnick = TRUE], <<>>)
     ELSE IF nick = <<"BOB">> THEN Res(st, <<Srv(E, {"self"}, "433", <<dest, Exp(E, nick), Txt(E, <<8, 2, 7, 2, 3>>)>>)>>)
-    ELSE Res(st, <<Srv(E, {"self"}, "432", <<dest, Exp(E, nick), Txt(E, <<9, 8>>)>>)>>)   \* the driver only posts invalid ones
+    \* every other nickname the frames can spell is invalid (the replay driver draws the ordinary bytes of
+    \* NICK frames from characters that are not allowed in nicknames)
+    ELSE Res(st, <<Srv(E, {"self"}, "432", <<dest, Exp(E, nick), Txt(E, <<9, 8>>)>>)>>)
 
 Ping(E, st, msg) ==
     LET N == Nick(E, st) IN
@@ -568,7 +571,8 @@ Frames == <<
   F("user-r",     {"reg"},                  "base",    "post", <<"USER", "SP", "o", "SP", "o", "SP", "o", "SP", "COLON">>, <<>>,
                   <<P(<<"WHOIS", "SP", "SELF">>), P(<<"WHO", "SP", "CHAN">>), Reset>>),
   F("nick",       {"unreg", "reg"},         "base",    "post", <<"NICK">>, <<>>, <<>>),
-  F("nick-p",     {"unreg", "reg"},         "chanbob", "post", <<"NICK", "SP">>, <<>>, <<>>),
+  F("nick-p",     {"unreg", "reg"},         "base",    "post", <<"NICK", "SP">>, <<>>, <<>>),
+  F("nick-b",     {"unreg", "reg"},         "base",    "post", <<"NICK", "SP", "BOB">>, <<>>, <<>>),
   F("ping",       {"reg"},                  "all",     "post", <<"PING">>, <<>>, <<>>),
   F("whois",      {"reg"},                  "all",     "post", <<"WHOIS">>, <<>>, <<>>),
   F("who",        {"reg"},                  "all",     "post", <<"WHO">>, <<>>, <<>>),
